@@ -441,7 +441,9 @@ def _consistency(flavor, op, cbs, *, pid=None, bump=lambda k, n=1: None, rewritt
                 gp = [grad[i] * P[i] for i in range(n)]
                 want = psi + hx + pTp / (2 * G) + sum(gp)
                 M = Mpsi + hx + pTp / (2 * G) + sum(abs(P[i]) * Mg[i] for i in range(n))
-                if not math.isfinite(v) or abs(Fr(v) - want) > (Fr(REL) + 8 * (n + 4) * Fr(EPS)) * M:
+                if M > Fr(10) ** 300:
+                    bump('consistency_skipped_overflow_range')
+                elif not math.isfinite(v) or abs(Fr(v) - want) > (Fr(REL) + 8 * (n + 4) * Fr(EPS)) * M:
                     fail(k, cb, 'fbe', f'reported φγ = {v!r}, but ψ(x) + h(x̂) + ‖p‖²/(2γ) + ∇ψ(x)ᵀp = {float(want)!r} '
                                        f'(ψ, ∇ψ exact at the reported x; x̂, p, γ as reported)')
                 else:
@@ -484,6 +486,9 @@ def _consistency(flavor, op, cbs, *, pid=None, bump=lambda k, n=1: None, rewritt
                 bump('eps_nan_injected')
                 continue
             val, M, div = doc_criterion(cname, Q, G, X, S.frv(xh), grad, gradh, yh_ex)
+            if max([M] + Mg + Mgh) > Fr(10) ** 300 or (div and M / 1 > Fr(10) ** 300):
+                bump('consistency_skipped_overflow_range')
+                continue
             tol = float(Fr(REL) * M) + REL * abs(val) + \
                 4 * _ulp(*(x + xh)) * (1.0 / gam if div else 1.0) * (n if cname.endswith('2') else 1)
             tol += float(Fr(REL) * max(Mg + Mgh + [Fr(0)]))     # the gradients enter every formula but the γ-step ones
